@@ -485,6 +485,16 @@ impl<'a> Model<'a> {
                 )
             });
 
+        // Moving a cell neither creates nor removes a link: the links follow their cells in
+        // `displace_links`. Typing the content into the target below would attach a link if the
+        // text looks like an URL and drop the one keyed there if the content is empty.
+        let target_link = self
+            .workbook
+            .worksheet(sheet)?
+            .links
+            .get(&(target_row, target_column))
+            .cloned();
+
         if let Some((width, height)) = array {
             // We are moving an array formula, we need to move the whole range
             self.set_user_array_formula(
@@ -497,6 +507,16 @@ impl<'a> Model<'a> {
             )?;
         } else {
             self.set_user_input(sheet, target_row, target_column, formula_or_value)?;
+        }
+
+        let links = &mut self.workbook.worksheet_mut(sheet)?.links;
+        match target_link {
+            Some(link) => {
+                links.insert((target_row, target_column), link);
+            }
+            None => {
+                links.remove(&(target_row, target_column));
+            }
         }
 
         let worksheet = self.workbook.worksheet_mut(sheet)?;
